@@ -1,5 +1,5 @@
 /-
-  The straight-line part of the scalar fragment: definitions and assignments of one variable, `print`, and a
+  The straight-line part of the scalar fragment: definitions and assignments (single and simultaneous), `print`, and a
   `panic` as the last statement - the statements whose Batch lines contain no label, jump or block.
   (Fragment of the theorem in Props/C05Sem.  Which EXPRESSIONS are covered is not part of this predicate: the source
   semantics `Sem/Src32` gives no result for an expression outside the scalar fragment, and the theorem speaks about the
@@ -10,8 +10,8 @@ namespace Tsh.C05S
 open Tsh Tsh.Tr Tsh.Sem
 
 def straightStmt : Stmt → Bool
-  | .varDef [x] [_] => goodName x.name
-  | .assign [x] [_] => goodName x.name
+  | .varDef vars vals => vars.length == vals.length && !vars.isEmpty && vars.all (fun x => goodName x.name)
+  | .assign vars vals => vars.length == vals.length && !vars.isEmpty && vars.all (fun x => goodName x.name)
   | .print _ => true
   | _ => false
 
